@@ -23,7 +23,7 @@ ASSUMPTIONS = ['0.0 is the sparse format\'s "pruned" marker: a genuine logit is 
                'the end-to-end leg uses transcriptions with plain single spaces, geometry inside the page; both layouts go through the same decoder and exporter']
 N = {'quick': 500, 'thorough': 30000}
 CLASSES = ['roundtrip', 'roundtrip_bytes', 'subset', 'superset', 'legacy', 'missing_component', 'dense', 'rebuild', 'rebuild', 'empty_page']
-REQUIRED = ['rebuilds_of_an_imported_and_reordered_layout', 'missing_component_with_a_complete_twin', 'matrices_with_explicitly_stored_zeros', 'refused_saves_over_an_existing_file', 'partial_file_redecodes', 'legacy:characters_only', 'legacy:coords_only', 'roundtrip_lines', 'untouched_checked', 'missing_reported', 'dense_checked', 'rebuild_pages', 'rebuild_lines_decoded', 'rebuild_alto_compared', 'legacy_checked', 'reloads', 'parse_folder_rebuilds', 'float32_lines']
+REQUIRED = ['legacy_windows_edited_in_place', 'saves_under_a_bare_file_name', 'rebuilds_of_an_imported_and_reordered_layout', 'missing_component_with_a_complete_twin', 'matrices_with_explicitly_stored_zeros', 'refused_saves_over_an_existing_file', 'partial_file_redecodes', 'legacy:characters_only', 'legacy:coords_only', 'roundtrip_lines', 'untouched_checked', 'missing_reported', 'dense_checked', 'rebuild_pages', 'rebuild_lines_decoded', 'rebuild_alto_compared', 'legacy_checked', 'reloads', 'parse_folder_rebuilds', 'float32_lines']
 CHARSETS = [list('abcdefgh '), list('abc '), ['a', 'b', 'é', 'ạ̈', 'שׁ', '\U0001F600', ' '], [chr(0x61 + k) for k in range(26)] + [' ', '.', ',']]
 
 
@@ -107,6 +107,17 @@ def save_and_load(src, dst, case, ctx, **kw):
         dst.load_logits(src.save_logits_bytes(**kw))
     else:
         f = os.path.join(ctx.tmpdir, 'p.logits')
+        if case['seed'] % 3 == 0:
+            # a bare file name, relative to the working directory
+            cwd = os.getcwd()
+            os.chdir(ctx.tmpdir)
+            try:
+                src.save_logits('p.logits', **kw)
+                dst.load_logits('p.logits')
+            finally:
+                os.chdir(cwd)
+            ctx.bare_names = getattr(ctx, 'bare_names', 0) + 1
+            return
         src.save_logits(f, **kw)
         dst.load_logits(f)
 
@@ -221,12 +232,23 @@ def check(case, mon, ctx):
             e_coords = la.logit_coords if which == 'coords_only' else [None, None]
             if not same_sparse(la.logits, lb.logits) or lb.characters != e_chars or lb.logit_coords != e_coords:
                 mon.violation('legacy-file-loads', {'file_has': which, 'line': la.id, 'characters': lb.characters, 'coords': lb.logit_coords, 'expected_characters': e_chars, 'expected_coords': e_coords})
+        # history: the window of one loaded line is then set in place (a later stage fills in what the old file did not have); the other lines keep theirs
+        loaded = [by[la.id] for la in lines_a]
+        if len(loaded) >= 2 and which != 'coords_only' and isinstance(loaded[0].logit_coords, list):
+            before = [list(l.logit_coords) for l in loaded[1:]]
+            loaded[0].logit_coords[0], loaded[0].logit_coords[1] = 3, 17
+            mon.count('legacy_windows_edited_in_place')
+            after = [list(l.logit_coords) for l in loaded[1:]]
+            if after != before:
+                mon.violation('legacy-file-loads', {'file_has': which, 'note': 'the frame window of the first loaded line was set in place and the windows of other lines changed with it', 'other_lines_before': before[:3], 'other_lines_after': after[:3]})
         return
     try:
         save_and_load(a, b, case, ctx)
     except Exception as e:
-        mon.violation('save-load-raises', {'exception': repr(e)[:300]})
+        mon.violation('save-load-raises', {'exception': repr(e)[:300], 'bare_file_name': (not case['bytes']) and case['seed'] % 3 == 0})
         return
+    if not case['bytes'] and case['seed'] % 3 == 0:
+        mon.count('saves_under_a_bare_file_name')
     by_id = {l.id: l for l in b.lines_iterator()}
     mon.observe('loaded windows and tables', [(l.id, l.logit_coords, l.characters, None if l.logits is None or isinstance(l.logits, str) else [int(x) for x in l.logits.shape]) for l in b.lines_iterator()])
     for la in lines_a:
